@@ -1,6 +1,8 @@
 //! Property-specific engine extensions for C12 (owned by the C12 check): harvesting of persisted objects
 //! from simulator histories, serialization oracles for monitors / monitor updates / managers, throw-away
-//! reloads of a `ChannelManager`, structural TLV-tail locator, and the twin-world comparison surface.
+//! reloads of a `ChannelManager`, the twin-world comparison surface and reload, structural TLV-tail locator
+//! with unknown-record injection / truncation / mutation oracles, and (modules `aux`, `sweep`) the
+//! NetworkGraph, ProbabilisticScorer and OutputSweeper oracles.
 
 use crate::ops::*;
 use crate::rec::*;
@@ -500,8 +502,6 @@ pub fn is_chain_tag(tag: &str) -> bool {
 	matches!(tag, "mine" | "reorg" | "restart" | "restart-failed")
 }
 
-#[allow(unused)]
-fn _unused(_: &WorldSpec) {}
 
 // -------------------------------------------------------------------------------------------------
 // (c) twin worlds: the externally observable surface of a world
@@ -1672,7 +1672,7 @@ pub mod aux {
 		let entries = scorer_entry_count(&b1);
 		let mut res = ScorerResult { entries, nonempty_buckets: false, queries: 0, nonzero_penalties: 0 };
 		let ro = g.read_only();
-		let mut battery = |a: &ProbabilisticScorer<&'static Graph, &'static TestLogger>, b: &ProbabilisticScorer<&'static Graph, &'static TestLogger>, params: &ProbabilisticScoringFeeParameters, what: &str, res: &mut ScorerResult| -> Result<(), Failure> {
+		let battery = |a: &ProbabilisticScorer<&'static Graph, &'static TestLogger>, b: &ProbabilisticScorer<&'static Graph, &'static TestLogger>, params: &ProbabilisticScoringFeeParameters, what: &str, res: &mut ScorerResult| -> Result<(), Failure> {
 			for q in queries {
 				if m.chans.is_empty() {
 					break;
